@@ -292,3 +292,91 @@ fn structural_update(kind: u8) {
 fn c16_structural_update_on_assertion() {
     structural_update(0);
 }
+
+// ---- guard_update, first half (source slice regenerated by the driver on every run) -------------
+// guard_update as a whole does not finish under CBMC; the loop that sends every action to the guards is
+// extracted verbatim (slices/guard_update_actions.rs). Every `?` exit of that loop is an Err of
+// guard_update itself, so "the loop refuses" implies "guard_update refuses". Added after seeded change
+// C16-5 (UNSET STRUCTURAL no longer guarded).
+include!("/verif/slices/guard_update_actions.rs");
+
+fn kind_from(k: u8) -> Option<BoundKind> {
+    match k {
+        0 => None,
+        1 => Some(BoundKind::Assertion),
+        2 => Some(BoundKind::Evidence),
+        3 => Some(BoundKind::Proposition),
+        4 => Some(BoundKind::Concept),
+        _ => Some(BoundKind::Activity),
+    }
+}
+
+fn set_fields(name: &str) -> UpdateAction {
+    UpdateAction::SetFields(vec![(name.to_string(), MutationValue::Value(KipValue::Null))])
+}
+
+fn update_with(actions: Vec<UpdateAction>) -> UpdateStatement {
+    UpdateStatement { target: ElementRef::Handle(String::from("a")), expect_version: None, actions, where_clauses: None, limit: None }
+}
+
+// structural writes: refused exactly for the kinds that have no mutable structure, wherever the action
+// stands in the statement and whether it is SET or UNSET
+macro_rules! slice_structural {
+    ($name:ident, $actions:expr) => {
+        #[kani::proof]
+        #[kani::unwind(4)]
+        fn $name() {
+            let k: u8 = kani::any();
+            kani::assume(k <= 5);
+            let kind = kind_from(k);
+            let st = update_with($actions);
+            let r = slice_guard_update_actions(&st, kind);
+            let record_kind = matches!(k, 1 | 2 | 3 | 5);
+            assert!(r.is_err() == record_kind, "a structural SET or UNSET is refused iff the target is bound as an Assertion, Evidence, Proposition or Activity");
+            assert!(r.is_err() == guard_structural_mutation(kind).is_err(), "and that is exactly guard_structural_mutation's verdict");
+            kani::cover!(k == 1, "assertion target");
+            kani::cover!(k == 4, "concept target accepted");
+            std::mem::forget((r, st));
+        }
+    };
+}
+// @check id=C16 tier=quick cap=300 needs=slice_guard_update role=guard_update_structural_slice harness=c16_slice_set_structural,c16_slice_unset_structural,c16_slice_unset_structural_after_attributes,c16_slice_unset_structural_after_set_structural
+// @fns parser::kml::guard_update (first loop, sliced), parser::kml::guard_structural_mutation
+// @bound every bound kind (None + 5) x four concrete action lists: [SET STRUCTURAL], [UNSET STRUCTURAL], [UNSET ATTRIBUTES, UNSET STRUCTURAL], [SET ATTRIBUTES, SET STRUCTURAL, UNSET STRUCTURAL]; edge lists empty (the guards do not read them)
+// @assume the sliced loop is guard_update's first statement after `kind` (the slicer refuses the slice if a return or Ok( precedes it)
+slice_structural!(c16_slice_set_structural, vec![UpdateAction::SetStructural(Vec::new())]);
+slice_structural!(c16_slice_unset_structural, vec![UpdateAction::UnsetStructural(Vec::new())]);
+slice_structural!(c16_slice_unset_structural_after_attributes, vec![UpdateAction::UnsetAttributes(Vec::new()), UpdateAction::UnsetStructural(Vec::new())]);
+slice_structural!(c16_slice_unset_structural_after_set_structural, vec![UpdateAction::SetAttributes(Vec::new()), UpdateAction::SetStructural(Vec::new()), UpdateAction::UnsetStructural(Vec::new())]);
+
+// field writes: every SET FIELDS assignment reaches guard_immutable_field, not only the first one of
+// the first action
+macro_rules! slice_fields {
+    ($name:ident, $k:expr, $table:ident, $actions:expr) => {
+        #[kani::proof]
+        #[kani::unwind(16)]
+        fn $name() {
+            let bad: &str = $table[$table.len() - 1];
+            let build = $actions;
+            let st = update_with(build(bad));
+            let r = slice_guard_update_actions(&st, kind_from($k));
+            assert!(r.is_err(), "an immutable payload field of a kind is refused in an UPDATE bound to that kind, at any position in the statement");
+            let other = slice_guard_update_actions(&st, kind_from(4));
+            assert!(other.is_ok(), "the same statement on a Concept target is not refused by this loop");
+            std::mem::forget((r, other, st));
+        }
+    };
+}
+// @check id=C16 tier=quick cap=600 needs=slice_guard_update role=guard_update_fields_slice harness=c16_slice_evidence_field_second_assignment,c16_slice_proposition_field_alone
+// @fns parser::kml::guard_update (first loop, sliced), parser::kml::guard_immutable_field
+// @bound the last name of ASSERTION_IMMUTABLE / EVIDENCE_IMMUTABLE / PROPOSITION_IMMUTABLE (every name of each table is decided on guard_immutable_field itself above; a symbolic table index here took 230-300+ s) on a target bound to that kind (refused) and to a Concept (accepted) - all concrete, the solver only folds constants here: a wiring check; the immutable name is the only assignment, the second assignment of one SET FIELDS, or in the second SET FIELDS action after a harmless one
+slice_fields!(c16_slice_evidence_field_second_assignment, 2, EVIDENCE_IMMUTABLE, |bad: &str| vec![UpdateAction::SetFields(vec![
+    ("x_note".to_string(), MutationValue::Value(KipValue::Null)),
+    (bad.to_string(), MutationValue::Value(KipValue::Null)),
+])]);
+slice_fields!(c16_slice_proposition_field_alone, 3, PROPOSITION_IMMUTABLE, |bad: &str| vec![set_fields(bad)]);
+// (177 s although fully concrete: String/Vec drop glue at unwind 16 - thorough tier)
+// @check id=C16 tier=thorough cap=600 needs=slice_guard_update role=guard_update_fields_slice_second_action harness=c16_slice_assertion_field_second_action
+// @fns parser::kml::guard_update (first loop, sliced), parser::kml::guard_immutable_field
+// @bound the last name of ASSERTION_IMMUTABLE / EVIDENCE_IMMUTABLE / PROPOSITION_IMMUTABLE (every name of each table is decided on guard_immutable_field itself above; a symbolic table index here took 230-300+ s) on a target bound to that kind (refused) and to a Concept (accepted) - all concrete, the solver only folds constants here: a wiring check; the immutable name is the only assignment, the second assignment of one SET FIELDS, or in the second SET FIELDS action after a harmless one
+slice_fields!(c16_slice_assertion_field_second_action, 1, ASSERTION_IMMUTABLE, |bad: &str| vec![set_fields("x_note"), set_fields(bad)]);
